@@ -202,24 +202,42 @@ pub fn val_tok(env: &Env, v: &Val) -> String {
 
 /// Events emitted since `cursor` by any of `watch`, as ` E:<topic0>:<topic>...:<data>` tokens.
 pub fn new_events(env: &Env, cursor: &mut usize, watch: &[Address]) -> String {
-    let all = env.events().all();
+    // (the SDK's `env.events().all()` turns EVERY event recorded so far into host objects on every call — quadratic in the
+    // length of a history and never freed; this reads the same list on the Rust side and converts only the new entries)
+    let watch_ids: Vec<Addr> = watch.iter().map(Addr::from_sdk).collect();
+    let all = env.host().get_events().unwrap().0;
     let mut out = String::new();
-    let n = all.len() as usize;
-    for i in *cursor..n {
-        let (c, topics, data) = all.get(i as u32).unwrap();
-        if !watch.is_empty() && !watch.iter().any(|w| *w == c) {
-            continue;
-        }
-        out.push_str(" E");
-        if watch.len() != 1 {
-            let _ = write!(out, "@{}", Addr::from_sdk(&c).tok());
-        }
-        for t in topics.iter() {
+    let mut n = 0usize;
+    for e in all.into_iter() {
+        if let xdr::ContractEvent {
+            type_: xdr::ContractEventType::Contract,
+            contract_id: Some(contract_id),
+            body: xdr::ContractEventBody::V0(xdr::ContractEventV0 { topics, data }),
+            ..
+        } = e.event
+        {
+            let i = n;
+            n += 1;
+            if i < *cursor {
+                continue;
+            }
+            let c = Addr { contract: true, id: contract_id.0 };
+            if !watch_ids.is_empty() && !watch_ids.iter().any(|w| *w == c) {
+                continue;
+            }
+            out.push_str(" E");
+            if watch.len() != 1 {
+                let _ = write!(out, "@{}", c.tok());
+            }
+            for t in topics.iter() {
+                out.push(':');
+                let v: Val = Val::try_from_val(env, t).unwrap();
+                out.push_str(&val_tok(env, &v));
+            }
             out.push(':');
-            out.push_str(&val_tok(env, &t));
+            let v: Val = Val::try_from_val(env, &data).unwrap();
+            out.push_str(&val_tok(env, &v));
         }
-        out.push(':');
-        out.push_str(&val_tok(env, &data));
     }
     *cursor = n;
     out
@@ -372,6 +390,9 @@ pub fn new_env() -> Env {
         use soroban_sdk::testutils::Ledger as _;
         env.ledger().with_mut(|li| li.min_persistent_entry_ttl = 6_000_000);
     }
+    // no DIAGNOSTIC events (one per host-function call of every wasm invocation, kept for the whole life of the host): they are
+    // never read, and over a long history they cost gigabytes; contract events are unaffected
+    let _ = env.host().set_diagnostic_level(Default::default());
     env
 }
 
